@@ -2,7 +2,7 @@
 //! guards) in every guard-drop situation, in thread and in coroutine context, on a clean and on an already
 //! poisoned lock.  For each guard one line
 //!
-//!   CASE mode kind isco pre gpan tpan creq => lock_err poisoned released later_err get_mut_err into_inner_err
+//!   CASE mode kind isco pre gpan tpan creq cunw => lock_err poisoned released later_err get_mut_err into_inner_err
 //!
 //! is printed; `check` evaluates `MayV.Rt.PoisonModel.poison_case` on the inputs by vm_compute and compares.
 //!
@@ -14,6 +14,8 @@
 //!          tpan   MEASURED: std::thread::panicking() right before the guard is dropped (what Flag::done reads)
 //!          creq   1 = cancel() has been called on the coroutine before the guard is dropped (Cancel.state = 1;
 //!                 the cancel is never disabled in these runs)
+//!          cunw   1 = the cancel panic has been raised in this coroutine before the guard is dropped (what
+//!                 Cancel::is_cancel_unwinding() reports since fix bce9086; the mark is never cleared)
 //! outputs  lock_err        the lock()/write()/read() call that made the guard returned Err(Poisoned(guard))
 //!          poisoned        is_poisoned() after the guard is gone
 //!          released        a try_lock()/try_write() after the guard is gone hands out a guard (Ok or inside Poisoned)
@@ -30,12 +32,15 @@
 //!        7 a panic raised and caught (catch_unwind) while the guard is held; guard dropped normally
 //!        8 guard made and dropped inside a Drop impl that runs during a CANCELLATION unwinding
 //!        9 cancel() requested first, then lock (uncontended: no cancellation point), then a genuine panic
+//!       10 the coroutine's own code catches its cancel panic (catch_unwind around a cancellation point) and goes on,
+//!          then takes the lock and panics for real inside the guard
 //!
 //! Oracles on the implementation (independent of the Coq function): expected poisoning per mode written down by
 //! hand from the property text (std semantics + "cancellation never poisons"), lock always released, Err results
 //! consistent with is_poisoned(), the protected value intact, join() delivers exactly the payload / Cancel.
-//! Modes 5 and 9 (a genuine panic in a coroutine whose cancel flag is set) are checked by the oracle only with
-//! MAYV_STRICT=1: the code decides "cancelled" from the flag, not from the panic payload (reported).
+//! Modes 5 and 9 (a genuine panic in a coroutine whose cancel flag is set) must poison since fix bce9086 (finding
+//! F32); MAYV_STRICT=0 switches that expectation off (to look at the code before the fix).  Mode 10 is the residue of
+//! that fix - the mark set by the cancel panic is never cleared - and is checked by the oracle only with MAYV_STRICT10=1.
 use may::sync::{Mutex, MutexGuard, RwLock, RwLockReadGuard, RwLockWriteGuard};
 use mayv::*;
 use std::alloc::{GlobalAlloc, Layout, System};
@@ -253,6 +258,16 @@ fn body(mode: u64, l: Lk, l2: Lk, meas: Arc<Meas>, meas2: Arc<Meas>, ready: Arc<
             let _p = Probe(meas.clone());
             panic_any(7u64);
         }
+        10 => {
+            unsafe { may::coroutine::current().cancel() };
+            let r = catch_unwind(|| may::coroutine::yield_now());
+            if r.is_ok() {
+                mayv::ctx().fail("mode 10: the cancellation point did not raise the cancel panic".into());
+            }
+            let _g = take(l, &meas);
+            let _p = Probe(meas.clone());
+            panic_any(7u64);
+        }
         _ => unreachable!(),
     }
 }
@@ -373,19 +388,20 @@ fn inspect(ctx: &Ctx, l: Lk, what: &str, writes: i64) -> [i64; 5] {
 
 fn main() {
     let cfg = Config::from_env();
-    let strict = envn("MAYV_STRICT", 0) != 0;
+    let strict = envn("MAYV_STRICT", 1) != 0;
+    let strict10 = envn("MAYV_STRICT10", 0) != 0;
     let only_mode = std::env::var("MAYV_MODE").ok().and_then(|s| s.parse::<u64>().ok());
     std::panic::set_hook(Box::new(|_| {}));
     run(cfg, move |ctx| {
         // the scheduler is created by the first spawn: do it before anything else
         unsafe { may::coroutine::spawn(|| {}) }.join().ok();
         let mut ncases = 0;
-        for mode in 0..10u64 {
+        for mode in 0..11u64 {
             if only_mode.map(|m| m != mode).unwrap_or(false) {
                 continue;
             }
             for isco in [false, true] {
-                if !isco && matches!(mode, 3 | 5 | 8 | 9) {
+                if !isco && matches!(mode, 3 | 5 | 8 | 9 | 10) {
                     continue; // cancellation exists for coroutines only
                 }
                 for kind in [Kind::M, Kind::W, Kind::R] {
@@ -402,7 +418,8 @@ fn main() {
                         let (meas, meas2) = (Meas::new(), Meas::new());
                         let ready = Arc::new(AtomicBool::new(false));
                         let (m1, m2, r2) = (meas.clone(), meas2.clone(), ready.clone());
-                        let mut creq = matches!(mode, 5 | 9);
+                        let mut creq = matches!(mode, 5 | 9 | 10);
+                        let cunw = matches!(mode, 3 | 8 | 10);
                         let res: Result<(), Box<dyn std::any::Any + Send>> = if isco {
                             let h = unsafe { may::coroutine::spawn(move || body(mode, l, l2, m1, m2, r2, how)) };
                             if matches!(mode, 3 | 8) {
@@ -437,13 +454,13 @@ fn main() {
                             }
                             let o = inspect(ctx, l, &what, meas.writes.load(SeqCst) + pre_writes);
                             println!(
-                                "CASE {tag} {} {} {} {gpan} {tpan} {} => {lock_err} {} {} {} {} {}",
-                                kind as u8, isco as u8, pre as u8, creq as u8, o[0], o[1], o[2], o[3], o[4]
+                                "CASE {tag} {} {} {} {gpan} {tpan} {} {} => {lock_err} {} {} {} {} {}",
+                                kind as u8, isco as u8, pre as u8, creq as u8, cunw as u8, o[0], o[1], o[2], o[3], o[4]
                             );
                             ncases += 1;
                             // hand-written expectation: poisoned iff it was before, or a write guard was dropped by a
                             // genuine panic that started while it was held
-                            let cancel_flag_case = matches!(mode, 5 | 9);
+                            let cancel_flag_case = matches!(mode, 5 | 9) && !strict || mode == 10 && !strict10;
                             let exp_pois = pre || (kind != Kind::R && inside && genuine);
                             if lock_err != pre as i64 {
                                 ctx.fail(format!("{what}: lock result Err={lock_err} on a lock with poisoned={}", pre as u8));
@@ -451,7 +468,7 @@ fn main() {
                             if o[1] != 1 {
                                 ctx.fail(format!("{what}: the lock is NOT released after the guard was dropped"));
                             }
-                            if (o[0] != exp_pois as i64) && (strict || !cancel_flag_case) {
+                            if (o[0] != exp_pois as i64) && !cancel_flag_case {
                                 ctx.fail(format!("{what}: is_poisoned() = {} after the guard was dropped, expected {}", o[0], exp_pois as u8));
                             }
                             if o[1] == 1 && (o[2] != o[0] || o[3] != o[0] || o[4] != o[0]) {
@@ -467,7 +484,7 @@ fn main() {
                                 emit(4, l, &meas, true, true);
                                 emit(14, l2, &meas2, false, true);
                             }
-                            5 | 9 => emit(mode, l, &meas, true, true),
+                            5 | 9 | 10 => emit(mode, l, &meas, true, true),
                             8 => emit(mode, l, &meas, false, false),
                             _ => {}
                         }
